@@ -27,9 +27,13 @@ MANIFEST = dict(
 
 def streams(tier, seed):
     if tier == "quick":
-        return [dict(tag="main", count=8000, seed=seed), dict(tag="small", count=2000, seed=seed + 1, extra={"widths": "1,2,3,4"})]
+        # "wide": values of three and more words (whole-word shift amounts that are not powers of two, masks that cross two word
+        # boundaries); added with the C06 stream of the same name after seeded change C06-m7
+        return [dict(tag="main", count=8000, seed=seed), dict(tag="small", count=2000, seed=seed + 1, extra={"widths": "1,2,3,4"}),
+                dict(tag="wide", count=1500, seed=seed + 5, extra={"widths": "1,8,64,65,129,191,192,193,200,255,256,257"})]
     out = [dict(tag="main%d" % k, count=25000, seed=seed * 1000 + k) for k in range(12)]
     out.append(dict(tag="small", count=40000, seed=seed + 1, extra={"widths": "1,2,3,4"}))
+    out.append(dict(tag="wide", count=30000, seed=seed + 5, extra={"widths": "1,8,64,65,129,191,192,193,200,255,256,257"}))
     out.append(dict(tag="directed-only", count=40000, seed=seed + 2, extra={"directed": "100"}))
     return out
 
